@@ -15,7 +15,7 @@ LEVEL_TEXT = ('every combination of destination kind, trashed kind, --overwrite,
 LEVEL_NOTE = 'trusted: CPython/shutil, tmpfs, the snapshot comparer; names and contents outside the alphabet are not covered'
 RULE = ('full Cartesian product of destination kind (absent, regular file, empty dir, non-empty dir, '
         'symlink->file, symlink->dir, dangling symlink, regular file owned by another user) x trashed kind (6) x --overwrite x selection '
-        'shape (single / "0,1" with first or second blocked / "0-1") x --sort, and single selections again with the trash directory named by --trash-dir; plus the same location trashed twice and both indices chosen in one run (parent kept / removed); every point executed '
+        'shape (single / "0,1" with first or second blocked / "0-1") x --sort, and single selections again with the trash directory named by --trash-dir; plus an entry whose place gets taken by a directory restored earlier in the same run; plus the same location trashed twice and both indices chosen in one run (parent kept / removed); every point executed '
         'on the real trash-put + trash-restore; non-trivial = the run reached the existence probe '
         '(listing printed and an index chosen), distinct = outcome class x dest x kind x overwrite')
 DESTS = ['absent', 'file', 'file-same-stat', 'file-other-owner', 'emptydir', 'dir', 'lfile', 'ldir', 'ldang']
@@ -47,6 +47,12 @@ def cases(tier):
                 for var in ('parent-kept', 'parent-removed'):
                     for reply in ('0,1', '0-1', '1,0'):
                         out.append({'part': 'twice', 'kind': k, 'ow': ow, 'sort': so, 'var': var, 'reply': reply})
+    # an older d/x, then the whole of d (with a newer x inside) were trashed; d is restored first IN THE SAME RUN: the older x now finds its place taken
+    for so in ('path', 'date', 'none'):
+        for ow in (0, 1):
+            for k in ('file', 'lfile', 'ldang'):
+                for reply in ('0,1', '1,0', '0-1'):
+                    out.append({'part': 'nested', 'kind': k, 'ow': ow, 'sort': so, 'reply': reply})
     for so in sorts(tier):
         for sel in SELS:
             for ow in (0, 1):
@@ -172,7 +178,43 @@ def run_at_prompt(c):
     return {'verdict': 'viol', 'sig': 'C06|overwrite-did-not-replace|at-prompt|kind=%s' % c['kind'], 'klass': 'at-prompt-overwrite-failed', 'nontrivial': dims, 'detail': detail}
 
 
+def run_nested(c):
+    D, X = W + '/d', W + '/d/x'
+    Wd = scen.base_world()
+    Wd.dir(D)
+    scen.add_entry(Wd, X, c['kind'], tag=' (older)')
+    with cell.Sandbox(Wd.spec()) as sb:
+        r = sb.run(['trash-put', 'd/x'], now='2024-01-01T10:00:00')
+        with open(sb.root + X, 'w') as f:
+            f.write('the newer x, trashed together with d\n')
+        r2 = sb.run(['trash-put', 'd'], now='2024-01-02T10:00:00')
+        if r.exit or r2.exit:
+            return {'verdict': 'dontcare', 'klass': 'put-failed', 'detail': r.err + r2.err}
+        before = sb.snapshot()
+        argv = ['trash-restore', '--sort', c['sort']] + (['--overwrite'] if c['ow'] else [])
+        rr = sb.run(argv, stdin=c['reply'] + '\n', cwd=W)
+        after = sb.snapshot()
+    listing = scen.parse_restore_listing(rr.out)
+    order = [p for i in (([0, 1] if c['reply'] in ('0,1', '0-1') else [1, 0])) for (j, d_, p) in listing if j == i]
+    detail = {'argv': argv, 'reply': c['reply'], 'exit': rr.exit, 'err': rr.err[-300:], 'listing': listing, 'restore_order': order}
+    dims = 'nested|kind=%s|ow=%d|sort=%s|%s' % (c['kind'], c['ow'], c['sort'], 'd-first' if order[:1] == [D] else 'x-first')
+    newer = after.get(X)
+    if order[:1] != [D] or c['ow']:
+        return {'verdict': 'dontcare', 'klass': 'nested:other-order-or-overwrite', 'detail': detail}
+    # d came back first with the newer x inside; the older x must have been refused and must still be in the trash, complete
+    newer_ok = newer is not None and newer[0] == 'f' and newer[3] == b'the newer x, trashed together with d\n'
+    older_kept = scen.entry_state(before, after, TD, 'x') == 'kept'
+    if not newer_ok:
+        return {'verdict': 'viol', 'sig': 'C06|clobbered|dest=restored-in-the-same-run|ow=0', 'klass': 'clobbered', 'nontrivial': 'clobbered|' + dims, 'detail': detail}
+    if not older_kept or rr.exit == 0:
+        return {'verdict': 'viol', 'sig': 'C06|%s|dest=restored-in-the-same-run|ow=0' % ('pair-lost' if not older_kept else 'no-failure-report'), 'klass': 'pair-lost',
+                'nontrivial': 'lost|' + dims, 'detail': detail}
+    return {'verdict': 'ok', 'klass': 'refused', 'nontrivial': 'refused|' + dims, 'detail': detail}
+
+
 def run_case(c):
+    if c.get('part') == 'nested':
+        return run_nested(c)
     if c.get('part') == 'at-prompt':
         return run_at_prompt(c)
     if c.get('part') == 'twice':
